@@ -117,7 +117,7 @@ func RunOne(t *testing.T, prop string, seed uint64, plan, sched []int, replay bo
 // Shutdown stops every live instance so its goroutines and database go away.
 func (w *World) Shutdown() {
 	for _, inst := range w.Insts {
-		if inst.WM == nil || inst.Dead || inst.Stopped || !inst.Started {
+		if inst.WM == nil || inst.Dead || inst.Stopped || !inst.Started || inst.StopRequested {
 			if inst.DB != nil && !inst.Dead && !inst.Stopped && !inst.Started {
 				inst.DB.Close()
 			}
@@ -130,6 +130,7 @@ func (w *World) Shutdown() {
 // StopSolo runs WalletManager.Stop to completion with fair scheduling of the
 // followers. It reports whether Stop returned.
 func (inst *Instance) StopSolo() bool {
+	inst.StopRequested = true
 	g := inst.Call(RoleStopper, "Stop", func() { inst.WM.Stop() })
 	ok := inst.W.S.RunSolo(g, stepBudget)
 	if ok {
